@@ -174,6 +174,7 @@ func cmdGen(args []string) {
 	if *schedp != "" {
 		sched = newLineWriter(*schedp)
 	}
+	genSeed = *seed
 	var jr *journal
 	if *schedp != "" {
 		jf, err := os.Create(*schedp + ".journal")
@@ -217,12 +218,18 @@ func cmdGen(args []string) {
 			randL := func() LSpec {
 				l := LSpec{S: rng.Intn(64)}
 				if rng.Intn(3) == 0 {
-					l.S = []int{63, 1, 2, 4, 8, 16, 32, 48, 3, 12}[rng.Intn(10)]
+					l.S = []int{63, 1, 2, 4, 8, 16, 32, 48, 3, 12, 16, 32, 48, 50, 56}[rng.Intn(15)]
 				}
 				if rng.Intn(100) < 60 {
 					l.HasC = true
 					for _, c := range p.Comps {
-						if rng.Intn(100) < 35 {
+						pc := 35
+						if kindIsRel(c.Kind) && l.S&(1|4) == 0 && l.S&(16|32) != 0 {
+							// subscribed to relation / target changes but not to creation or addition: whether the
+							// listener hears of a new relation hinges on the relation component being in its restriction
+							pc = 75
+						}
+						if rng.Intn(100) < pc {
 							l.C = append(l.C, c.ID)
 						}
 					}
